@@ -22,6 +22,7 @@ ObservedCall(r) ==
   /\ phase = "serving" /\ sessionOpen
   /\ r.kind = "buffered" => r.n <= LitMax
   /\ r.kind = "append" => r.n <= AppendMax
+  /\ r.nest <= NestMax          \* nesting depth of the arguments the call was made with (0: flat)
   /\ UNCHANGED vars
 
 ObservedIdle(r) ==
